@@ -184,6 +184,8 @@ func Boot(sc *Scenario) (*World, error) {
 		openapi.InterceptH2CClient()
 		pristineDict = dict.Default.SimClone()
 	})
+	// package-level channels / timers of the system are made anew, inside this run's bubble
+	rt.RunBootHooks()
 	// every run starts with the dictionaries of a freshly started process
 	dict.Default = pristineDict.SimClone()
 	logger.Log.SetLevel(logrus.ErrorLevel)
